@@ -179,6 +179,16 @@ reg('C17', 'E2+E3',
     'lineage class is pickled and deep-copied.',
     'Trusted: observation through the public API and hooks H1/H2. Interfaces are not part of the claim.', '4 C17')
 
+reg('C19', 'E1',
+    'exhaustive coin-sequence enumeration on the real splitters; cost-bounded exploration of the scripted stream on the lineage simulator',
+    'Splitters: every coin sequence of every binomial / perfect-rounding draw is scripted for every splitter class x per-species mode x '
+    'volume mode x noise x mothers in {0..4}^2; conservation, duplication, volume split and the exact product-Binomial(n, p) law (summed '
+    'cell measures, p = observed volume fraction) are decided. Lineage: ten models covering every volume / division / death rule and event '
+    'type, exhaustion and a reaction-free model, through py_SimulateSingleCell and py_SimulateCellLineage: every reference trace within the '
+    'cost bound (waiting time vs grid, reaction / event bucket, splitter coins) is replayed and the real records are checked (positive '
+    'volume and simulated state on every row, daughters born at the mother\'s last time from a valid partition, mutual links, tree shape).',
+    E1_NOTE + ' Rules and events with noise terms are not explored; the lineage exploration is capped per configuration.', '4 C19')
+
 def hook_commits():
     try:
         out = subprocess.run(['git', '-C', '/repo', 'log', '--format=%h %s'], stdout=subprocess.PIPE).stdout.decode()
